@@ -202,6 +202,85 @@ pub fn eval(toks: &[&str]) -> String {
                 Err(e) => format!("err {}", show_err(&e)),
             }
         }
+        // decode a wire name, then re-parse its text with both parsers and the validator (C05, converse)
+        ["rt", pos, h] => {
+            let pos: usize = match pos.parse() {
+                Ok(p) => p,
+                Err(_) => return "bad-request".into(),
+            };
+            let bytes = match from_hex(h) {
+                Some(b) => b,
+                None => return "bad-request".into(),
+            };
+            let g = Guarded::new(&bytes, true);
+            let buf = g.as_slice();
+            let mut c = vh::Cursor::with_pos(buf, pos);
+            let r: rsdns::Result<Name> = vh::read_domain_name(&mut c);
+            let mut c2 = vh::Cursor::with_pos(buf, pos);
+            let r2: rsdns::Result<InlineName> = vh::read_domain_name(&mut c2);
+            match (&r, &r2) {
+                (Ok(a), Ok(b)) if a.as_str() == b.as_str() => {}
+                (Err(_), Err(_)) => {}
+                _ => return "heap-inline-disagree".into(),
+            }
+            match r {
+                Err(e) => format!("err {}", show_err(&e)),
+                Ok(n) => {
+                    let t = n.as_str();
+                    let p1 = Name::from_str(t);
+                    let p2 = InlineName::from_str(t);
+                    let p3 = vh::check_name_bytes(t.as_bytes());
+                    let show = |ok: bool, e: Option<String>| if ok { "ok".to_string() } else { format!("err:{}", e.unwrap()) };
+                    let eq1 = p1.as_ref().map(|m| m.as_str() == t && *m == n).unwrap_or(false);
+                    let eq2 = p2.as_ref().map(|m| m.as_str() == t).unwrap_or(false);
+                    format!(
+                        "ok {} heap={} inline={} check={} same={}",
+                        to_hex(t.as_bytes()),
+                        show(p1.is_ok(), p1.as_ref().err().map(show_err)),
+                        show(p2.is_ok(), p2.as_ref().err().map(show_err)),
+                        show(p3.is_ok(), p3.as_ref().err().map(show_err)),
+                        eq1 && eq2
+                    )
+                }
+            }
+        }
+        // encode a text name into a roomy buffer, decode it again (C05, forward)
+        ["enc", h] => {
+            let name = match from_hex(h) {
+                Some(b) => b,
+                None => return "bad-request".into(),
+            };
+            let mut g = Guarded::new(&vec![0xFFu8; 600], true);
+            let w = vh::write_domain_name(g.as_mut_slice(), &name);
+            let parse_ok = match std::str::from_utf8(&name) {
+                Ok(s) => Some((Name::from_str(s).is_ok(), InlineName::from_str(s).is_ok())),
+                Err(_) => None,
+            };
+            let chk = vh::check_name_bytes(&name).is_ok();
+            let pstr = match parse_ok {
+                Some((a, b)) => format!("{}{}", a as u8, b as u8),
+                None => "--".into(),
+            };
+            match w {
+                Err(e) => format!("err {} parse={} check={}", show_err(&e), pstr, chk as u8),
+                Ok(n) => {
+                    let buf = g.as_slice();
+                    let mut c = vh::Cursor::with_pos(&buf[..n], 0);
+                    let r: rsdns::Result<Name> = vh::read_domain_name(&mut c);
+                    match r {
+                        Ok(d) => format!(
+                            "ok {} dec={} next={} parse={} check={}",
+                            n,
+                            to_hex(d.as_str().as_bytes()),
+                            c.pos(),
+                            pstr,
+                            chk as u8
+                        ),
+                        Err(e) => format!("ok {} dec=!{} parse={} check={}", n, show_err(&e), pstr, chk as u8),
+                    }
+                }
+            }
+        }
         _ => "bad-request".into(),
     }
 }
@@ -351,6 +430,57 @@ pub fn gen(stream: &str, r: &mut Rng, _i: u64) -> String {
                     };
                     format!("wname {} {}", cap, to_hex(&s))
                 }
+            }
+        }
+        "roundtrip" => {
+            if r.chance(1, 2) {
+                let s = gen_name_text(r);
+                format!("enc {}", to_hex(&s))
+            } else {
+                // a wire name: labels up to the length limits, sometimes compressed
+                let mut buf: Vec<u8> = Vec::new();
+                let tail_first = r.chance(1, 3);
+                if tail_first {
+                    let l = gen_label_text(r);
+                    if !l.is_empty() && l.len() < 64 {
+                        buf.push(l.len() as u8);
+                        buf.extend_from_slice(&l);
+                    }
+                    buf.push(0);
+                }
+                let start = buf.len();
+                let target: usize = r.range(230, 260) as usize;
+                let long = r.chance(1, 2);
+                let mut total = 0usize;
+                loop {
+                    let len = if long {
+                        let left = target.saturating_sub(total);
+                        if left <= 1 {
+                            break;
+                        }
+                        (left - 1).min(63)
+                    } else {
+                        if r.chance(1, 3) {
+                            break;
+                        }
+                        r.range(1, 12) as usize
+                    };
+                    buf.push(len as u8);
+                    for _ in 0..len {
+                        buf.push(*r.pick(b"abcXYZ09-_"));
+                    }
+                    total += len + 1;
+                    if total > 300 {
+                        break;
+                    }
+                }
+                if tail_first && r.chance(1, 2) {
+                    buf.push(0xC0);
+                    buf.push(0);
+                } else {
+                    buf.push(0);
+                }
+                format!("rt {} {}", start, to_hex(&buf))
             }
         }
         "cmp" => {
